@@ -628,6 +628,10 @@ func genUI(r *rand.Rand, n int, emit func(Op)) {
 				fields["actor"] = bobURL
 			}
 			acts = append(acts, g.serve(home, fmt.Sprintf("act%d", a), fields))
+			if r.Intn(6) == 0 {
+				/* entries that are no activities: nothing at all, a number, a list, a bare note */
+				acts = append(acts, pick(r, []any{nil, nil, 7, []any{}, notes[k], map[string]any{"type": "Note", "content": "bare"}}))
+			}
 		}
 		third := len(acts) / 3
 		p3 := map[string]any{"type": "OrderedCollectionPage", "orderedItems": acts[2*third:]}
